@@ -23,6 +23,11 @@ CHECKS = {
  "C17": ("model_checking", "The tetraplets of every request are compared by TLC (TraceNet!InvC17) with the provenance SeqSem predicts for the argument expressions (producer triplet, exact lens); one recorded deviation (functor .length) is classified inside the invariant and listed in known_findings.json.", "TLA+ trace validation against SeqSem provenance"),
  "C19": ("model_checking", "TLC checks on every recorded run: next peers without self/duplicates, new sent-marks imply forwarding, new canon results attributed to the running peer; at quiescence of join-free scripts the observer's merge holds no sent-mark.", "TLA+ trace validation; invariants Props!C19b/cWeak/aCanon/d"),
  "C20": ("model_checking", "Every recorded run is executed twice on the real code; TLC checks equality of code, message, canonical data digest, requests, next-peer set and flags.", "TLA+ trace validation; re-execution probe; invariant Props!C20"),
+ "C21": ("model_checking", "TLC enumerates the complete grid of interpreter versions around the minimum (major, minor, patch, pre-release, build metadata) x inner-data kind x previous-data kind (576 cases, FnSpec!VersionCases); the harness builds each envelope and runs it on the real code; TLC validates every record against FnSpec!VersionExpect (semver precedence against 0.61.0) and that the executed cases are exactly the enumerated space.", "TLA+ case-space enumeration + trace validation of executed cases (FnSpec.tla)"),
+ "C22": ("model_checking", "TLC enumerates all 1000 configurations of the three limits (0, size-1, size, size+1, max) x hard/soft x presence of current data and call result; each runs on the real code next to an unlimited run; TLC validates code, flags and equality with the unlimited outcome (FnSpec!LimitsExpect).", "TLA+ case-space enumeration + trace validation (FnSpec.tla)"),
+ "C23": ("model_checking", "TLC enumerates a generated family of script ASTs incl. ill-scoped ones (2.5k quick, >100k thorough); each is rendered and parsed by the real parser; TLC checks Ok => WellScoped (FnSpec!WellScoped, the weak textual reading) and totality of the call.", "TLA+ enumeration of ASTs + trace validation against FnSpec!WellScoped"),
+ "C24": ("model_checking", "TLC enumerates JSON values (depth <= 2) x lens paths (length <= 2 quick, <= 3 thorough, incl. accessors taken from scalars and .length); each is applied by the real interpreter inside an xor; TLC compares branch and value with plain JSON navigation AirValues!Nav.", "TLA+ enumeration + trace validation against AirValues!Nav"),
+ "C28": ("model_checking", "For the same AST family the beautifier's output is split into (indentation depth, text) lines by an independent reader and compared by TLC with FnSpec!Shape (one line per instruction in order, depth = nesting with sequences flattened, keywords and operands).", "TLA+ enumeration + trace validation against FnSpec!Shape"),
  "C27": ("model_checking", "After every recorded run the produced data, request map and result map are re-encoded and decoded by the real codecs; TLC checks the round-trip facts (Props!C27).", "TLA+ trace validation; recode probe; invariant Props!C27"),
 }
 
@@ -34,13 +39,8 @@ NOT_YET = {
  "C14": "Adversary layer not built yet",
  "C15": "Adversary layer (fork pairs) not built yet",
  "C18": "failure-kind generator not built yet",
- "C21": "function-level specification not built yet",
- "C22": "function-level specification not built yet",
- "C23": "function-level specification not built yet",
- "C24": "function-level specification not built yet",
  "C25": "function-level specification not built yet",
  "C26": "function-level specification not built yet",
- "C28": "function-level specification not built yet",
 }
 
 def main():
